@@ -88,10 +88,288 @@ def TraitType.soundLeaf : TraitType → Bool
 
 variable (E : Env)
 
+theorem fast_int_ok (v w : Val) (h : fastAlone E .int v = .ok w) : asInteger v = .ok w := by
+  simp only [fastAlone] at h
+  cases hr : asInteger v with
+  | ok x => simp [hr] at h; simp [h]
+  | error e => cases e <;> simp [hr] at h
+
+theorem fast_float_ok (v w : Val) (h : fastAlone E .float v = .ok w) : validateFloat v = .ok w := by
+  simp only [fastAlone] at h
+  cases hr : validateFloat v with
+  | ok x => simp [hr] at h; simp [h]
+  | error e => cases e <;> simp [hr] at h
+
+theorem fast_complex_ok (v w : Val) (h : fastAlone E .complexNumber v = .ok w) :
+    validateComplexNumber v = .ok w := by
+  simp only [fastAlone] at h
+  cases hr : validateComplexNumber v with
+  | ok x => simp [hr] at h; simp [h]
+  | error e => cases e <;> simp [hr] at h
+
+theorem fast_range_ok (lo hi : Option F) (m : Nat) (v w : Val) (h : fastAlone E (.floatRange lo hi m) v = .ok w) :
+    validateFloat v = .ok w ∧ inFloatRange (floatOf w) lo hi m = true := by
+  simp only [fastAlone] at h
+  cases hr : validateFloat v with
+  | error e => cases e <;> simp [hr] at h
+  | ok x =>
+    simp only [hr] at h
+    by_cases hi' : inFloatRange (floatOf x) lo hi m = true
+    · simp [hi'] at h; subst h; exact ⟨rfl, hi'⟩
+    · simp [hi'] at h
+
+theorem fast_coerce_nil_ok (ty : Ty) (v w : Val) (h : fastAlone E (.coerce ty []) v = .ok w) :
+    Val.isInst ty v = true ∧ w = v := by
+  simp only [fastAlone, coerceScan, coerceAny] at h
+  by_cases hi : Val.isInst ty v = true
+  · simp [hi] at h; exact ⟨hi, h.symm⟩
+  · simp [hi] at h
+
+theorem fast_cast_ok (ty : Ty) (v w : Val) (h : fastAlone E (.cast ty) v = .ok w) :
+    (Val.exactTy ty v = true ∧ w = v) ∨ E.cast ty v = .ok w := by
+  simp only [fastAlone] at h
+  by_cases hx : Val.exactTy ty v = true
+  · simp [hx] at h; exact Or.inl ⟨hx, h.symm⟩
+  · simp [hx] at h
+    cases hc : E.cast ty v with
+    | ok x => simp [hc] at h; exact Or.inr (by simp [h])
+    | error e => simp [hc] at h
+
+theorem fast_enum_ok (vals : List Val) (v w : Val) (h : fastAlone E (.enum vals) v = .ok w) :
+    seqContains vals v = .yes ∧ w = v := by
+  simp only [fastAlone] at h
+  cases hs : seqContains vals v <;> simp [hs] at h
+  exact ⟨rfl, h.symm⟩
+
+theorem fast_map_ok (keys : List Val) (v w : Val) (h : fastAlone E (.map keys) v = .ok w) :
+    (∃ i, dictFind keys v = .ok (some i)) ∧ w = v := by
+  simp only [fastAlone] at h
+  cases hs : dictFind keys v with
+  | error e => simp [hs] at h
+  | ok o =>
+    cases o with
+    | none => simp [hs] at h
+    | some i => simp [hs] at h; exact ⟨⟨i, rfl⟩, h.symm⟩
+
+theorem fast_check_ok (an : Bool) (ty : Ty) (v w : Val)
+    (h : fastAlone E (.typeChk an ty) v = .ok w ∨ fastAlone E (.instChk an ty) v = .ok w) :
+    ((an = true ∧ v.isNone = true) ∨ Val.isInst ty v = true) ∧ w = v := by
+  rcases h with h | h <;> simp only [fastAlone] at h <;> split at h <;> simp_all
+
+theorem isInst_bool_exact (v : Val) (h : Val.isInst .bool v = true) : Val.exactTy .bool v = true := by
+  rcases v with a | ⟨sub, vs⟩ | vs
+  · cases a <;> simp_all [Val.exactTy, Val.isInst]
+  · simp_all [Val.isInst]
+  · simp_all [Val.isInst]
+
+theorem exactTy_str (w : Val) (h : Val.exactTy .str w = true) : ∃ s, w = .atom (.str false s) := by
+  rcases w with a | ⟨sub, vs⟩ | vs
+  · cases a <;> simp_all [Val.exactTy]
+    case str sub s => cases sub <;> simp_all [Val.exactTy]
+  · simp_all [Val.exactTy]
+  · simp_all [Val.exactTy]
+
+/-! ### Python-only leaves -/
+
+theorem py_rangeI_ok (lo hi : Option Int) (a b : Bool) (v w : Val)
+    (h : pyValidate E (.rangeI lo hi a b) v = .ok w) : Good E (.rangeI lo hi a b) v w := by
+  simp only [pyValidate, ← asInteger_eq_py] at h
+  cases hr : asInteger v with
+  | error e => cases e <;> simp [hr] at h
+  | ok x =>
+    simp only [hr] at h
+    by_cases hi' : pyInRangeI lo hi a b (intOf x) = true
+    · simp [hi'] at h; subst h
+      obtain ⟨h1, n, h2, rfl⟩ := asInteger_ok v x hr
+      refine ⟨?_, n, h2, rfl⟩
+      simp only [inDomain, Val.ofInt]
+      rw [← pyInRangeI_eq]; simpa [intOf, Val.ofInt] using hi'
+    · simp [hi'] at h
+
+theorem py_tupleAny_ok (v w : Val) (h : pyValidate E .tupleAny v = .ok w) : Good E .tupleAny v w := by
+  simp only [pyValidate] at h
+  rcases v with a | ⟨sub, vs⟩ | vs
+  · simp at h
+  · simp at h; subst h; exact ⟨by simp [inDomain, Val.isInst], Or.inl rfl⟩
+  · simp at h; subst h; exact ⟨by simp [inDomain, Val.isInst], Or.inr ⟨vs, rfl, rfl⟩⟩
+
+theorem py_type_ok (cls : Ty) (an : Bool) (v w : Val) (h : pyValidate E (.type_ cls an) v = .ok w) :
+    Good E (.type_ cls an) v w := by
+  simp only [pyValidate] at h
+  cases hs : isSubclass v cls with
+  | none =>
+    simp only [hs] at h
+    by_cases hn : (v.isNone && an) = true
+    · simp [hn] at h; subst h
+      simp only [Bool.and_eq_true] at hn
+      exact ⟨by simp [inDomain, hn.1, hn.2], rfl⟩
+    · simp [hn] at h
+  | some b =>
+    cases b with
+    | true => simp [hs] at h; subst h; exact ⟨by simp [inDomain, hs], rfl⟩
+    | false => simp [hs] at h
+
+theorem py_none_ok (v w : Val) (h : pyValidate E .noneTrait v = .ok w) : Good E .noneTrait v w := by
+  simp only [pyValidate] at h
+  by_cases hn : v.isNone = true
+  · simp [hn] at h; subst h; exact ⟨by simp [inDomain, hn], rfl⟩
+  · simp [hn] at h
+
+theorem py_string_ok (hE : EnvOK E) (mn : Nat) (mx re : Option Nat) (v w : Val)
+    (h : pyValidate E (.string mn mx re) v = .ok w) : Good E (.string mn mx re) v w := by
+  simp only [pyValidate, stringValidate] at h
+  split at h
+  · cases hcast : E.cast .str v with
+    | error e => simp [hcast] at h
+    | ok x =>
+      simp only [hcast] at h
+      obtain ⟨s, rfl⟩ := exactTy_str x (hE.castTyped _ _ _ hcast)
+      simp only [strOf] at h
+      cases re with
+      | none =>
+        cases mx with
+        | none =>
+          by_cases hm : mn = 0
+          · subst hm; simp at h; subst h
+            exact ⟨by simp [inDomain], hcast⟩
+          · have : (mn == 0) = false := by simpa using hm
+            simp [this] at h
+            obtain ⟨h1, rfl⟩ := h
+            exact ⟨by simp [inDomain, h1], hcast⟩
+        | some m =>
+          simp at h
+          obtain ⟨h1, rfl⟩ := h
+          exact ⟨by simp [inDomain, h1.1, h1.2], hcast⟩
+      | some k =>
+        cases mx with
+        | none =>
+          by_cases hm : mn = 0
+          · subst hm; simp at h
+            obtain ⟨h1, rfl⟩ := h
+            exact ⟨by simp [inDomain, h1], hcast⟩
+          · have : (mn == 0) = false := by simpa using hm
+            simp [this] at h
+            obtain ⟨h1, rfl⟩ := h
+            exact ⟨by simp [inDomain, h1.1, h1.2], hcast⟩
+        | some m =>
+          simp at h
+          obtain ⟨h1, rfl⟩ := h
+          exact ⟨by simp [inDomain, h1.1.1, h1.1.2, h1.2], hcast⟩
+  · simp at h
+
+theorem completeValue_ok (keys : List String) (v w : Val) (s : String) (hs : strOf v = some s)
+    (h : completeValue keys v s = .ok w) :
+    (∃ s', strOf w = some s' ∧ keys.contains s' = true) ∧
+    (w = v ∨ ∃ s k, strOf v = some s ∧ keys.filter (fun k => s.isPrefixOf k) = [k] ∧ w = Val.ofStr k) := by
+  unfold completeValue at h
+  by_cases hc : keys.contains s = true
+  · simp [hc] at h; subst h
+    exact ⟨⟨s, hs, hc⟩, Or.inl rfl⟩
+  · simp only [hc] at h
+    split at h
+    · rename_i k hk
+      simp at h; subst h
+      have hmem : k ∈ keys.filter (fun k => s.isPrefixOf k) := by simp [hk]
+      refine ⟨⟨k, rfl, ?_⟩, Or.inr ⟨s, k, hs, hk, rfl⟩⟩
+      simpa using (List.mem_filter.mp hmem).1
+    · simp at h
+
+theorem py_prefixList_ok (vals : List String) (v w : Val) (h : pyValidate E (.prefixList vals) v = .ok w) :
+    Good E (.prefixList vals) v w := by
+  simp only [pyValidate] at h
+  cases hs : strOf v with
+  | none => simp [hs] at h
+  | some s =>
+    simp only [hs] at h
+    obtain ⟨⟨s', h1, h2⟩, h3⟩ := completeValue_ok vals v w s hs h
+    exact ⟨by simp [inDomain, h1, h2], h3⟩
+
+theorem py_prefixMap_ok (keys : List String) (vals : List Val) (v w : Val)
+    (h : pyValidate E (.prefixMap keys vals) v = .ok w) : Good E (.prefixMap keys vals) v w := by
+  simp only [pyValidate] at h
+  cases hs : strOf v with
+  | none => simp [hs] at h
+  | some s =>
+    simp only [hs] at h
+    obtain ⟨⟨s', h1, h2⟩, h3⟩ := completeValue_ok keys v w s hs h
+    exact ⟨by simp [inDomain, h1, h2], h3⟩
+
 theorem sound_atomic_ctrait (hE : EnvOK E) (t : TraitType) (hs : t.subs = none) (hn : t.isNoFast = false)
     (hc : t.soundLeaf = true) (v w : Val) (h : ctraitValidate E t v = .ok w) : Good E t v w := by
   cases t <;> simp [TraitType.subs, TraitType.isNoFast] at hs hn <;>
     simp [ctraitValidate, ctraitValidateWith, descOf, hasPy] at h
+  case any => subst h; exact ⟨rfl, rfl⟩
+  case int =>
+    obtain ⟨h1, h2⟩ := asInteger_ok v w (fast_int_ok E v w h)
+    exact ⟨h1, h2⟩
+  case float =>
+    obtain ⟨h1, h2, _⟩ := validateFloat_ok v w (fast_float_ok E v w h)
+    exact ⟨h1, h2⟩
+  case complex =>
+    obtain ⟨h1, h2⟩ := validateComplex_ok v w (fast_complex_ok E v w h)
+    exact ⟨h1, h2⟩
+  case str => obtain ⟨h1, rfl⟩ := fast_coerce_nil_ok E _ v w h; exact ⟨h1, rfl⟩
+  case bytes => obtain ⟨h1, rfl⟩ := fast_coerce_nil_ok E _ v w h; exact ⟨h1, rfl⟩
+  case module => obtain ⟨h1, rfl⟩ := fast_coerce_nil_ok E _ v w h; exact ⟨h1, rfl⟩
+  case bool =>
+    simp only [fastAlone, coerceScan, coerceAny] at h
+    by_cases hi : Val.isInst .bool v = true
+    · simp [hi] at h; subst h
+      exact ⟨isInst_bool_exact v hi, Or.inl ⟨isInst_bool_exact v hi, rfl⟩⟩
+    · simp [hi] at h
+      by_cases hn : Val.isInst .npBool v = true
+      · simp [hn] at h
+        cases hcast : E.cast .bool v with
+        | ok x => simp [hcast] at h; subst h; exact ⟨hE.castTyped _ _ _ hcast, Or.inr hcast⟩
+        | error e => simp [hcast] at h
+      · simp [hn] at h
+  case cint =>
+    rcases fast_cast_ok E _ v w h with ⟨hx, rfl⟩ | hcast
+    · exact ⟨hx, Or.inl ⟨hx, rfl⟩⟩
+    · exact ⟨hE.castTyped _ _ _ hcast, Or.inr hcast⟩
+  case cfloat =>
+    rcases fast_cast_ok E _ v w h with ⟨hx, rfl⟩ | hcast
+    · exact ⟨hx, Or.inl ⟨hx, rfl⟩⟩
+    · exact ⟨hE.castTyped _ _ _ hcast, Or.inr hcast⟩
+  case ccomplex =>
+    rcases fast_cast_ok E _ v w h with ⟨hx, rfl⟩ | hcast
+    · exact ⟨hx, Or.inl ⟨hx, rfl⟩⟩
+    · exact ⟨hE.castTyped _ _ _ hcast, Or.inr hcast⟩
+  case cstr =>
+    rcases fast_cast_ok E _ v w h with ⟨hx, rfl⟩ | hcast
+    · exact ⟨hx, Or.inl ⟨hx, rfl⟩⟩
+    · exact ⟨hE.castTyped _ _ _ hcast, Or.inr hcast⟩
+  case cbytes =>
+    rcases fast_cast_ok E _ v w h with ⟨hx, rfl⟩ | hcast
+    · exact ⟨hx, Or.inl ⟨hx, rfl⟩⟩
+    · exact ⟨hE.castTyped _ _ _ hcast, Or.inr hcast⟩
+  case cbool =>
+    rcases fast_cast_ok E _ v w h with ⟨hx, rfl⟩ | hcast
+    · exact ⟨hx, Or.inl ⟨hx, rfl⟩⟩
+    · exact ⟨hE.castTyped _ _ _ hcast, Or.inr hcast⟩
+  case castH ty =>
+    rcases fast_cast_ok E _ v w h with ⟨hx, rfl⟩ | hcast
+    · exact ⟨hx, Or.inl ⟨hx, rfl⟩⟩
+    · exact ⟨hE.castTyped _ _ _ hcast, Or.inr hcast⟩
+  case rangeF lo hi a b =>
+    obtain ⟨h1, h2⟩ := fast_range_ok E _ _ _ v w h
+    obtain ⟨h3, h4, h5⟩ := validateFloat_ok v w h1
+    refine ⟨?_, h4⟩
+    rw [h5]
+    simp only [inDomain, Val.ofFloat]
+    rw [← pyInRangeF_eq, ← inFloatRange_eq_py]; exact h2
+  case enum vals =>
+    obtain ⟨h1, rfl⟩ := fast_enum_ok E _ v w h
+    exact ⟨seqContains_yes_isMember _ _ h1, rfl⟩
+  case enumH vals =>
+    obtain ⟨h1, rfl⟩ := fast_enum_ok E _ v w h
+    exact ⟨seqContains_yes_isMember _ _ h1, rfl⟩
+  case map keys vals =>
+    obtain ⟨⟨i, h1⟩, rfl⟩ := fast_map_ok E _ v w h
+    exact ⟨dictFind_some_isKey _ _ i h1, rfl⟩
+  case mapH keys vals =>
+    obtain ⟨⟨i, h1⟩, rfl⟩ := fast_map_ok E _ v w h
+    exact ⟨dictFind_some_isKey _ _ i h1, rfl⟩
   all_goals trace_state
   all_goals sorry
 
